@@ -160,6 +160,51 @@ func c19() {
 	}
 	r.Count("exhaustive_deltas_with_block_matches", withBlocks)
 
+	// Weak-checksum collision family (both tiers): with block size 4 over {a,b}
+	// distinct blocks such as "abba"/"baab" share their rolling checksum, so
+	// every base/target of length exactly 8 exercises windows whose weak
+	// checksum matches a base block that the strong hash must then reject.
+	{
+		var eight [][]byte
+		for _, s := range abStrings(8) {
+			if len(s) == 8 {
+				eight = append(eight, s)
+			}
+		}
+		var cwg sync.WaitGroup
+		for w := 0; w < workers; w++ {
+			cwg.Add(1)
+			go func(w int) {
+				defer cwg.Done()
+				e := rsync.NewEngine()
+				evals := 0
+				defer func() { r.Eval(evals); r.Count("collision_family_round_trips", int64(evals)) }()
+				for bi := w; bi < len(eight); bi += workers {
+					base := eight[bi]
+					sig := e.BytesSignature(base, 4)
+					if sig == nil || len(sig.Hashes) != 2 {
+						continue
+					}
+					if sig.Hashes[0].Weak == sig.Hashes[1].Weak && !bytes.Equal(base[:4], base[4:]) {
+						r.Count("collision_family_bases_with_colliding_blocks", 1)
+					}
+					for _, target := range eight {
+						for _, max := range []uint64{0, 3} {
+							c := c19case{Base: base, Target: target, BlockSize: 4, Max: max, Route: "bytes"}
+							r.Guard(c, func() {
+								ops := e.DeltifyBytes(target, sig, max)
+								c19judge(r, col, e, c, sig, ops)
+								evals++
+							})
+						}
+					}
+				}
+			}(w)
+		}
+		cwg.Wait()
+		col.flush(r)
+	}
+
 	// Streaming route: a plain io.Reader with short reads as target (forces the
 	// engine's internal bufio wrapper), the signature computed from a
 	// non-seekable short-reading base, and Patch applied operation by operation.
